@@ -22,8 +22,8 @@ rm -f $DIR/zz_seed_demo_test.go
 echo "demo with patch exit=$W (want 1), without exit=$WO (want 0)"
 if [ $W -eq 0 ] || [ $WO -ne 0 ]; then echo "SEED-NOT-CONFIRMED"; tail -5 /tmp/seed_with.txt /tmp/seed_without.txt; exit 3; fi
 # run the check against /repo with the patch
-cd /repo && git apply --3way $WT/seed$N.diff 2>/tmp/seed_apply.txt || { echo "PATCH-DOES-NOT-APPLY (/repo HEAD)"; cat /tmp/seed_apply.txt | head -5; git checkout -q -- .; git reset -q; exit 4; }
+cd ${REPO:-/repo} && git apply --3way $WT/seed$N.diff 2>/tmp/seed_apply.txt || { echo "PATCH-DOES-NOT-APPLY (/repo HEAD)"; cat /tmp/seed_apply.txt | head -5; git checkout -q -- .; git reset -q; exit 4; }
 git reset -q
-cd /verif && timeout 3000 ./check $P --tier $TIER > /tmp/seed_check.txt 2>&1; C=$?
-cd /repo && git checkout -q -- . 
+cd /verif && timeout 3000 ./check $P --tier $TIER --repo ${REPO:-/repo} > /tmp/seed_check.txt 2>&1; C=$?
+cd ${REPO:-/repo} && git checkout -q -- . 
 echo "check exit=$C"; grep -E "^VIOLATION|key=|^property=|UNCONF|ENGINE|INCONCL" /tmp/seed_check.txt | cut -c1-220 | head -12
